@@ -70,7 +70,7 @@ def parse_out(line):
 class Check(DiffCheck):
     id = 'C07'
     coq_dirs = ['Base', 'E3', 'C07']
-    coq_targets = ['C07/C07_Arith.vo', 'C07/C07_Lists.vo', 'C07/C07_SPSC_Proofs.vo', 'C07/C07_MPMC_Proofs.vo', 'C07/C07_Chan_Proofs.vo', 'C07/C07_Chan_Inv.vo', 'C07/C07_Chan_InvS.vo', 'C07/C07_Batch_Proofs.vo', 'C07/C07_Proofs.vo', 'C07/C07_MPMC_Report.vo', 'C07/C07_MPMC_Linear.vo', 'C07/C07_Batch_Fifo.vo']
+    coq_targets = ['C07/C07_Arith.vo', 'C07/C07_Lists.vo', 'C07/C07_SPSC_Proofs.vo', 'C07/C07_MPMC_Proofs.vo', 'C07/C07_Chan_Proofs.vo', 'C07/C07_Chan_Inv.vo', 'C07/C07_Chan_InvS.vo', 'C07/C07_Batch_Proofs.vo', 'C07/C07_Proofs.vo', 'C07/C07_MPMC_Report.vo', 'C07/C07_MPMC_Linear.vo', 'C07/C07_Batch_Fifo.vo', 'C07/C07_ChanQ_Proofs.vo', 'C07/C07_ChanQ_Thm.vo']
     properties_v = 'C07/C07_Properties.v'
     extract_v = 'C07/C07_Extract.v'
     runner_ml = 'ocaml/C07_run.ml'
@@ -88,9 +88,9 @@ class Check(DiffCheck):
     partial_note = ('proved: SPSC (all), MPMC CAS+ticket (safety, below the 2^64 wrap), MPMC emptiness/fullness reporting (a failing pop/push saw the queue '
                     'empty/full at an instant inside the call), MPMC push/pop linearisable w.r.t. the atomic bounded FIFO (LP inside every completed call), '
                     'batch MPMC (bounded/no-overwrite, values, disjoint claims, per-thread FIFO and exactly-once over completed results), RingChannel '
-                    'no-lost-wake-up for consumers AND senders (protocol model over an atomic FIFO + counter semaphores, tied to the real send/recv/notify '
-                    'code by E3). NOT proved: the RingChannel invariant re-done over the fine-grained MPMC steps (the channel theorems are over the atomic '
-                    'FIFO that the linearisation theorem justifies). SC only.')
+                    'no-lost-wake-up for consumers AND senders over an atomic FIFO + counter semaphores (tied to the real send/recv/notify code by E3) AND over '
+                    'the fine-grained MPMC queue (product model, refinement with a prophecy on the schedule; proof-level model, not replayed). '
+                    'Not covered: MPMC/batch across the 2^64 index wrap (N1); yield_timeout expiry; SC only.')
     case_timeout = 900
 
     def build_impl(self):
